@@ -57,7 +57,9 @@ class ScriptProcess(Process):
                     loc.add(x)
         for j, ev in enumerate(self.table['procs'][self.pi]['events']):
             h = self.event_handler(j, ev)
-            name = 'ev%d_%d' % (self.pi, j)
+            # some events are registered WITHOUT a name (the name is optional): several unnamed events on one locus are
+            # still several events
+            name = None if ev.get('unnamed') else 'ev%d_%d' % (self.pi, j)
             # a locus of a sibling component is handed over as the Locus object
             own = self.table['loci'][ev['locus']]['owner'] == self.pi
             loc = self.lname(ev['locus']) if own else self.dynamics().loci()[self.lname(ev['locus'])]
@@ -72,6 +74,7 @@ class ScriptProcess(Process):
 
     def event_handler(self, j, ev):
         def h(t, e):
+            self.rec.last_ev = 'ev%d_%d' % (self.pi, j)      # lets the tap of an unnamed event be attributed
             member = e in self.dynamics().loci()[self.lname(ev['locus'])]
             self.rec.obs.append(['handler', ev['prog'], t, self.currentSimulationTime(), e, member])
             self.run_actions(self.table['progs'][ev['prog']], t, e)
@@ -198,6 +201,8 @@ def run_table(table, dynamics, graph, oracle, rec=None, budget=400, prerun=False
     index = {id(p): i for i, p in enumerate(procs)}
 
     def tap(t, p, name, e):
+        if name is None:
+            name = getattr(rec, 'last_ev', None)       # an event registered without a name
         rec.obs.append(['tap', t, index.get(id(p), -1), name, e])
         if len(rec.obs) > budget:
             raise Budget('run exceeds the harness budget of %d observations' % budget)
